@@ -205,6 +205,10 @@ def mangle_rules(facts, rep):
         for p in ps:
             kinds = [tab.get(v, v) for a, v in p["decisions"] if a != "#iter" and re.search(A_COMP, a)]
             pu = called(p, r"PathBuf::push$")
+            if len(kinds) > 1:
+                # two trips: one push per Normal component, none for the others
+                good = good and len(pu) == sum(1 for k_ in kinds if k_ == "Normal")
+                continue
             if kinds == ["Normal"]:
                 n_normal += 1
                 okp = len(pu) == 1
@@ -217,7 +221,11 @@ def mangle_rules(facts, rep):
             else:
                 good = good and not pu
             o = outcome(p)
-            good = good and o[0] == "value" and o[1][0] == "call" and o[1][1].endswith("PathBuf::new")
+            # the returned path is the accumulator: PathBuf::new(), or (fold form: acc = step(acc, x)) the loop-carried PathBuf itself
+            al_ = alts(o[1]) if o[0] == "value" and o[1] is not None else []
+            news_ = [x for x in al_ if x[0] == "call" and x[1].endswith("PathBuf::new")]
+            carried_ = [x for x in al_ if x[0] == "local" and (f.local_ty(x[1]) or "").endswith("PathBuf")]
+            good = good and len(news_) == 1 and len(news_) + len(carried_) == len(al_)
         good = good and n_normal >= 1
         ok &= rep.check(good, rule, "pipeline", where(f, f.span), "loop over components(): push exactly the Normal components, verbatim, onto an empty PathBuf that is returned",
                         "the sanitiser loop does not push exactly the Normal components onto the returned, initially empty PathBuf")
